@@ -41,6 +41,12 @@ def gen_cases(ctx):
                         cases.append(("grid reset%d" % r, ["new " + kind, "set %d %d" % (p["id"], p["hi"]), "reset %d" % r, "set %d %d" % (p["id"], v), "reset %d" % r]))
                     cases.append(("grid midframe-reset", ["new " + kind, "set %d %d" % (p["id"], v), "start", "reset 2", "reset 1", "reset 2"]))
                 cases.append(("grid after-error", ["new " + kind, "set %d %d" % (ps[-1]["id"], 99999), "set %d %d" % (p["id"], v)]))
+    # ZSTD_compress2 (success and failure) must leave every parameter as it was
+    for p in cps:
+        if p["id"] in BIG or p["id"] in (400, 1006, 1007):
+            continue
+        cases.append(("compress2", ["new c", "set %d %d" % (p["id"], p["hi"]), "c2 100000", "c2 1", "reset 1", "c2 1", "set %d %d" % (p["id"], p["lo"]), "reset 1", "c2 100000"]))
+    cases.append(("compress2", ["new c", "c2 1", "reset 1", "c2 100000", "frame 100", "set 1006 1", "c2 1", "reset 1", "set 1006 0", "frame 100", "c2 100000"]))
     # unknown parameter ids
     for kind in "cpd":
         cases.append(("unknown id", ["new " + kind, "set 7 1", "set 99999 1", "set -5 0"]))
@@ -162,7 +168,9 @@ def monitor(ctx, lines, couts):
                 started = False
             if r == 1 and vals != prev:
                 return "session-only reset changed a parameter"
-        if w[0] in ("start", "end", "frame", "simple", "dict") and prev is not None and vals != prev:
+        if w[0] == "c2":
+            started = status != "ok"
+        if w[0] in ("start", "end", "frame", "simple", "dict", "c2") and prev is not None and vals != prev:
             return "%s changed a stored parameter" % w[0]
         prev = vals
     return None
